@@ -21,6 +21,7 @@ from ..escape import Escape
 from ..cfg import CFG
 from ..report import Check
 from .. import tables
+from ..util import impl_funcs
 from ..util import not_none_fact, call_name, calls_in, enclosing_trys, handler_names, is_catch_all, reraises, names_in
 
 PHASE_ENTRIES = [
@@ -216,16 +217,20 @@ def run(repo: Repo, chk: Check, thorough: bool = False) -> None:
     pm = repo.func('pydoctor.model.System.processModule')
     cfg = CFG(pm)
     # (the tree handed to the walk is whatever local the call names: where it came from - parseFile / parseString directly or through a helper - does not matter)
-    pcalls = calls_in(pm, lambda c: call_name(c) == 'processModuleAST')
+    # (processModule together with the private methods it is split into: `self._processSourceModule(mod, name)` ... `self._moduleProcessed(mod, name)`)
+    pm_units = impl_funcs(repo, pm, depth=2)
+    pm_cfgs = {u.qn: (cfg if u is pm else CFG(u)) for u in pm_units}
+    pcalls = [(u, c) for u in pm_units for c in calls_in(u, lambda c: call_name(c) == 'processModuleAST')]
     if not pcalls:
         chk.error('System.processModule: the call builder.processModuleAST(<tree>, mod) was not found')
-    for c in pcalls:
+    for u, c in pcalls:
+        cfu = pm_cfgs[u.qn]
         tree = c.args[0] if c.args else None
-        tests = cfg.dominating_tests(cfg.stmt_of(c))
+        tests = cfu.dominating_tests(cfu.stmt_of(c))
         # the local that is handed over, and the locals that are the same value under another name (`ast = tree` ; `if tree: ... processModuleAST(ast, mod)`)
         same: Set[str] = {tree.id} if isinstance(tree, ast.Name) else set()
         for _ in range(2):
-            for a_ in pm.walk():
+            for a_ in u.walk():
                 if isinstance(a_, ast.Assign) and isinstance(a_.value, ast.Name) and len(a_.targets) == 1 and isinstance(a_.targets[0], ast.Name):
                     if a_.targets[0].id in same or a_.value.id in same:
                         same |= {a_.targets[0].id, a_.value.id}
@@ -234,23 +239,38 @@ def run(repo: Repo, chk: Check, thorough: bool = False) -> None:
         chk.ob('R01.2', 'System.processModule :: parse result tested before processModuleAST', ok,
                'dominated by a truth test of the parse result' if ok else
                'processModuleAST(ast, ...) is reachable with ast = None (unparsable file would crash the walk)',
-               repo.loc(pm.mod, c))
-    raises = [n for n in pm.walk() if isinstance(n, ast.Raise)]
+               repo.loc(u.mod, c))
+    raises = [n for u in pm_units for n in u.walk() if isinstance(n, ast.Raise)]
     chk.ob('R01.2', 'System.processModule :: no raise', not raises,
            'no raise statement' if not raises else f'raise at line {raises[0].lineno}', pm.loc)
     # the processing stack is balanced on every path of processModule (an unparsable module must not leak its name)
-    apps = [c for c in calls_in(pm) if call_name(c) == 'append' and isinstance(c.func, ast.Attribute) and
-            (dotted(c.func.value) or '').endswith('processing_modules')]
-    pops = [c for c in calls_in(pm) if call_name(c) == 'pop' and isinstance(c.func, ast.Attribute) and
-            (dotted(c.func.value) or '').endswith('processing_modules')]
-    if not apps or not pops:
+
+    def _stack_calls(u: Func, what: str) -> list:
+        return [c for c in calls_in(u) if call_name(c) == what and isinstance(c.func, ast.Attribute) and (dotted(c.func.value) or '').endswith('processing_modules')]
+
+    def _always_pops(h: Func) -> bool:
+        ch = pm_cfgs[h.qn]
+        ps_ = [ch.stmt_of(p_) for p_ in _stack_calls(h, 'pop')]
+        return bool(ps_) and ch.must_pass(ch.ENTRY, ch.EXIT, ps_, no_exc=True)
+
+    def _pop_stmts(u: Func) -> list:
+        cfu = pm_cfgs[u.qn]
+        out_ = [cfu.stmt_of(p_) for p_ in _stack_calls(u, 'pop')]
+        for c_ in calls_in(u):
+            for h in pm_units:
+                if h is not u and h is not pm and h.name == call_name(c_) and _always_pops(h):
+                    out_.append(cfu.stmt_of(c_))
+        return out_
+    apps = [(u, c) for u in pm_units for c in _stack_calls(u, 'append')]
+    if not apps or not any(_stack_calls(u, 'pop') for u in pm_units):
         chk.error('System.processModule: processing_modules.append/pop not found')
-    for a in apps:
-        ok = cfg.must_pass(cfg.stmt_of(a), cfg.EXIT, [cfg.stmt_of(p) for p in pops], no_exc=True)
+    for u, a in apps:
+        cfu = pm_cfgs[u.qn]
+        ok = cfu.must_pass(cfu.stmt_of(a), cfu.EXIT, _pop_stmts(u), no_exc=True)
         chk.ob('R01.2', f'System.processModule :: {norm(a)[:50]} is popped on every path', ok,
                'every normal path from the push to the end of processModule pops it' if ok else
                'a path (e.g. the unparsable-file path) leaves the module name on processing_modules: the next nested module trips the '
-               '`assert head == mod.fullName()` and aborts the run', repo.loc(pm.mod, a))
+               '`assert head == mod.fullName()` and aborts the run', repo.loc(u.mod, a))
     proc = repo.func('pydoctor.model.System.process')
     loops = [n for n in proc.walk() if isinstance(n, ast.While) and 'unprocessed_modules' in norm(n.test)]
     in_loop = [c for l in loops for st in l.body for c in ast.walk(st) if isinstance(c, ast.Call) and call_name(c) == 'processModule']
@@ -477,18 +497,28 @@ def run(repo: Repo, chk: Check, thorough: bool = False) -> None:
         raise AnalysisError('R01.7: no nested processing call precedes the state transition in processModule (1 confirmed: the package, since F64)')
     # ... the stack of names being processed: what is popped is compared with what was pushed - ONE evaluation kept in a local.  `mod.fullName()`
     # evaluated again after the builder ran can differ: a module that is re-exported by a module it imports is renamed while its own frame is active
-    pushes = [c for c in calls_in(pm) if call_name(c) == 'append' and isinstance(c.func, ast.Attribute) and 'processing_modules' in norm(c.func.value) and c.args]
-    asserts_ = [a for a in pm.walk() if isinstance(a, ast.Assert) and isinstance(a.test, ast.Compare) and len(a.test.ops) == 1 and isinstance(a.test.ops[0], ast.Eq) and
+    pm_nodes = [n_ for u_ in pm_units for n_ in u_.walk()]
+    pushes = [c for u_ in pm_units for c in calls_in(u_) if call_name(c) == 'append' and isinstance(c.func, ast.Attribute) and 'processing_modules' in norm(c.func.value) and c.args]
+    asserts_ = [a for a in pm_nodes if isinstance(a, ast.Assert) and isinstance(a.test, ast.Compare) and len(a.test.ops) == 1 and isinstance(a.test.ops[0], ast.Eq) and
                 any(isinstance(x, ast.Name) for x in (a.test.left, a.test.comparators[0])) and
                 any(isinstance(v, ast.Call) and call_name(v) == 'pop' for x in (a.test.left, a.test.comparators[0]) if isinstance(x, ast.Name)
-                    for n_ in pm.walk() if isinstance(n_, ast.Assign) and any(isinstance(t, ast.Name) and t.id == x.id for t in n_.targets) for v in [n_.value])]
+                    for n_ in pm_nodes if isinstance(n_, ast.Assign) and any(isinstance(t, ast.Name) and t.id == x.id for t in n_.targets) for v in [n_.value])]
     if not pushes or not asserts_:
         raise AnalysisError('R01.7: the push / pop-and-compare pair on processing_modules was not found in processModule')
     pushed = {norm(c.args[0]) for c in pushes}
+    # (a helper is handed the pushed name: at its call sites the argument is the local itself, not a second evaluation)
+    for u_ in pm_units:
+        if u_ is pm:
+            continue
+        up_ = [p_.arg for p_ in u_.params() if p_.arg not in ('self', 'cls')]
+        for c_ in [c_ for v_ in pm_units for c_ in calls_in(v_) if call_name(c_) == u_.name]:
+            for gp_, a_ in zip(up_, c_.args):
+                if gp_ in pushed and not isinstance(a_, ast.Name):
+                    pushed.discard(gp_)
     for a in asserts_:
         other = [x for x in (a.test.left, a.test.comparators[0]) if not (isinstance(x, ast.Name) and any(
             isinstance(n_, ast.Assign) and isinstance(n_.value, ast.Call) and call_name(n_.value) == 'pop' and any(isinstance(t, ast.Name) and t.id == x.id for t in n_.targets)
-            for n_ in pm.walk()))]
+            for n_ in pm_nodes))]
         okp = bool(other) and all(isinstance(x, ast.Name) and norm(x) in pushed for x in other)
         chk.ob('R01.7', 'pydoctor.model.System.processModule :: the popped name is compared with the value that was pushed', okp,
                f'one evaluation, kept in `{norm(other[0])}`' if okp else
